@@ -198,7 +198,8 @@ SPECS = [
          pulls=['a', 'a2'], input_kinds={'a': 'json', 'a2': 'json'}),
     dict(slug='f', cls_name='KfTask', kind='json',
          params=[dict(name='z', default=1, dpd=True), dict(name='v', default=0, ignore=True)], run_params=['z', 'v']),
-    dict(slug='h', cls_name='KhTask', kind='json', params=[dict(name='s', dtype='str')], run_params=['s']),
+    dict(slug='h', cls_name='KhTask', kind='json', params=[dict(name='s', dtype='str'), dict(name='pth', dtype='path')],
+         run_params=['s', 'pth']),
     dict(slug='m', cls_name='KmTask', kind='mem', inputs=[dict(ref='a', how='class')], pulls=['a'], input_kinds={'a': 'json'}),
     dict(slug='n', cls_name='KnTask', kind='json', inputs=[dict(ref='m', how='class')], pulls=['m'], input_kinds={'m': 'mem'}),
 ]
@@ -244,7 +245,7 @@ def realise(variant, x, yv, zv, base, work, rng, global_vars=None):
     from taskchain import Config
 
     work.mkdir(parents=True, exist_ok=True)
-    vals = {'x': x, 's': '{A}/s'}
+    vals = {'x': x, 's': '{A}/s', 'pth': '{A}/p'}
     if yv != 5 or rng.random() < 0.5:
         vals['y'] = yv
     if zv != 1 or rng.random() < 0.5:
